@@ -1,6 +1,11 @@
 pub mod evalcommon;
 pub mod regressions;
 pub mod c01;
+pub mod c02;
+pub mod c03;
+pub mod c04;
+pub mod c05;
+pub mod c10;
 
 use crate::core::{Ctx, Verdict};
 use serde_json::Value as J;
@@ -8,6 +13,11 @@ use serde_json::Value as J;
 pub fn run(ctx: &Ctx) -> bool {
     match ctx.prop.as_str() {
         "C01" => c01::run(ctx),
+        "C02" => c02::run(ctx),
+        "C03" => c03::run(ctx),
+        "C04" => c04::run(ctx),
+        "C05" => c05::run(ctx),
+        "C10" => c10::run(ctx),
         _ => return false,
     }
     true
@@ -17,6 +27,11 @@ pub fn run(ctx: &Ctx) -> bool {
 pub fn replay(prop: &str, _kind: &str, case: &J) -> Option<Verdict> {
     match prop {
         "C01" => c01::replay(case),
+        "C02" => c02::replay(case),
+        "C03" => c03::replay(case),
+        "C04" => c04::replay(case),
+        "C05" => c05::replay(case),
+        "C10" => c10::replay(case),
         _ => None,
     }
 }
